@@ -180,7 +180,7 @@ class Ctx:
             raise Infra("gnark-mbu build failed:\n" + r.stdout + r.stderr)
         return out
 
-    def run_vh(self, args, cases=None, timeout=1800, env_extra=None, race=False):
+    def run_vh(self, args, cases=None, timeout=1800, env_extra=None, race=False, allow_crash=False):
         """Run a harness sub-command; `cases` (any JSON value) is passed as a file. Returns parsed
         JSON lines written by the harness on stdout (lines starting with '{')."""
         vh = self.build_harness(race=race)
@@ -206,6 +206,8 @@ class Ctx:
                     res.append(json.loads(line))
                 except Exception:
                     pass
+        if allow_crash:
+            return dict(results=res, rc=r.returncode, tail="\n".join((r.stdout + r.stderr).splitlines()[-60:]), stdout=r.stdout)
         if r.returncode != 0:
             raise Infra("harness %s died rc=%s:\n%s" % (" ".join(args), r.returncode,
                                                        "\n".join((r.stdout + r.stderr).splitlines()[-40:])))
